@@ -555,9 +555,18 @@ fn attrs_json<'tcx>(tcx: TyCtxt<'tcx>, did: LocalDefId) -> J {
     let hir_id = tcx.local_def_id_to_hir_id(did);
     let mut v = vec![];
     for a in tcx.hir_attrs(hir_id) {
-        if let rustc_hir::Attribute::Unparsed(item) = a {
-            if let Ok(s) = tcx.sess.source_map().span_to_snippet(item.span) {
-                v.push(J::S(s));
+        match a {
+            rustc_hir::Attribute::Unparsed(item) => {
+                match tcx.sess.source_map().span_to_snippet(item.span) {
+                    Ok(s) => v.push(J::S(s)),
+                    Err(_) => v.push(J::S(format!("{:?}", item.path))),
+                }
+            }
+            other => {
+                let d = format!("{:?}", other);
+                if !d.contains("DocComment") {
+                    v.push(J::S(truncate(d, 160)));
+                }
             }
         }
     }
